@@ -306,7 +306,122 @@ type gen struct {
 	r   *rand.Rand
 	big bool // allow 64 KiB values in this case
 	bigLeft int
+	forced  *forcedCase // directed inputs for the next dataCase / intCase
 }
+
+// inputs chosen by a directed generator; the case then runs through the same trace lines as a random one
+type forcedCase struct {
+	nm      enc.Name
+	dcfg    *ndn.DataConfig
+	icfg    *ndn.InterestConfig
+	payload enc.Wire
+	sk      *signerKind
+}
+
+// exactSigner announces what its inner signer announces and returns a signature of exactly the estimated size: a Data or
+// Interest built with it has the length the encoder ESTIMATES for the inner signer.
+type exactSigner struct{ inner ndn.Signer }
+
+func (e exactSigner) SigInfo() (*ndn.SigConfig, error) { return e.inner.SigInfo() }
+func (e exactSigner) EstimateSize() uint              { return e.inner.EstimateSize() }
+func (e exactSigner) ComputeSigValue(enc.Wire) ([]byte, error) {
+	return make([]byte, e.inner.EstimateSize()), nil
+}
+
+// estimatedLen: length of the outermost value of the packet as estimated before signing, for a payload of c octets
+func estimatedLen(forInt bool, nm enc.Name, sg ndn.Signer, c int) int {
+	sp := spec.Spec{}
+	var w enc.Wire
+	func() {
+		defer func() { recover() }()
+		if forInt {
+			if res, err := sp.MakeInterest(nm, &ndn.InterestConfig{}, enc.Wire{make([]byte, c)}, exactSigner{sg}); err == nil {
+				w = res.Wire
+			}
+		} else {
+			if res, err := sp.MakeData(nm, &ndn.DataConfig{}, enc.Wire{make([]byte, c)}, exactSigner{sg}); err == nil {
+				w = res.Wire
+			}
+		}
+	}()
+	if w == nil {
+		return -1
+	}
+	b := join(w)
+	_, n1, _ := readVar(b)
+	_, n2, _ := readVar(b[n1:])
+	return len(b) - n1 - n2
+}
+
+// boundaryCases: for a signer whose signatures can be shorter than its estimate, Data and Interests whose ESTIMATED outer
+// length is exactly 253, 254, 255, 256 (and 65536..65538): attaching the real, shorter signature moves the outer length
+// across the point where its own encoding changes size (ShrinkLength re-slices the first buffer).  Payload sizes are
+// solved from the implementation's own estimate; several signatures per size.
+func (t *tracer) boundaryCases(g *gen, round int) {
+	initKeys()
+	kn := enc.Name{enc.NewStringComponent(8, "KEY"), enc.NewStringComponent(8, "1")}
+	mkCustom := func(est uint, short int, forInt bool) *signerKind {
+		c := &customSigner{est: est, siglen: int(est) - short, key: []byte("boundary")}
+		c.cfg.Type = ndn.SigType(200)
+		c.cfg.KeyName = kn
+		return &signerKind{kind: "custom", signer: c, key: c.key, typ: 200}
+	}
+	type variant struct {
+		forInt bool
+		mk     func() *signerKind
+	}
+	ecc := func(forInt bool) func() *signerKind {
+		return func() *signerKind {
+			return &signerKind{kind: "ecc", signer: sec.NewEccSigner(false, forInt, time.Hour, ecKeys[0], kn), ecPub: &ecKeys[0].PublicKey}
+		}
+	}
+	variants := []variant{
+		{false, ecc(false)}, {true, ecc(true)},
+		{false, func() *signerKind { return mkCustom(40, 1, false) }}, {false, func() *signerKind { return mkCustom(40, 2, false) }},
+		{false, func() *signerKind { return mkCustom(40, 3, false) }}, {true, func() *signerKind { return mkCustom(40, 1, true) }},
+		{true, func() *signerKind { return mkCustom(40, 3, true) }}, {false, func() *signerKind { return mkCustom(300, 2, false) }},
+	}
+	v := variants[round%len(variants)]
+	targets := []int{253, 254, 255, 256}
+	if !v.forInt && (round%len(variants) == 2 || !t.quick) { // one 64 KiB family per quick run, all Data variants in thorough
+		targets = append(targets, 65536, 65537, 65538)
+	}
+	nm := enc.Name{enc.NewStringComponent(8, "c12"), enc.NewStringComponent(8, "boundary")}
+	for _, target := range targets {
+		probe := v.mk()
+		l0 := estimatedLen(v.forInt, nm, probe.signer, 1)
+		if l0 < 0 || l0 > target {
+			continue
+		}
+		c := -1
+		for cand := target - l0 - 3; cand <= target-l0+2; cand++ {
+			if cand >= 1 && estimatedLen(v.forInt, nm, probe.signer, cand) == target {
+				c = cand
+				break
+			}
+		}
+		if c < 0 {
+			continue
+		}
+		reps := 1 // the test signers are deterministic; real ECDSA signatures vary in length (70..72 of 72)
+		if probe.kind == "ecc" {
+			reps = 3
+		}
+		for k := 0; k < reps; k++ {
+			payload := enc.Wire{g.rbytes(c / 2), g.rbytes(c - c/2)}
+			g.forced = &forcedCase{nm: nm, dcfg: &ndn.DataConfig{}, icfg: &ndn.InterestConfig{}, payload: payload, sk: v.mk()}
+			t.line("# boundary case: estimated outer length %d, payload %d", target, c)
+			if v.forInt {
+				t.intCase(g, 1000000+round)
+			} else {
+				t.dataCase(g, 1000000+round)
+			}
+			g.forced = nil
+			t.stats["boundary"]++
+		}
+	}
+}
+
 
 func (g *gen) rbytes(n int) []byte {
 	b := make([]byte, n)
@@ -860,6 +975,9 @@ func (t *tracer) dataCase(g *gen, id int) {
 			}
 		}()
 	}
+	if f := g.forced; f != nil {
+		nm, cfg, content, sk, wf = f.nm, f.dcfg, f.payload, f.sk, true
+	}
 	var rec *recSigner
 	var signer ndn.Signer
 	if sk.signer != nil {
@@ -1391,6 +1509,9 @@ func (t *tracer) intCase(g *gen, id int) {
 	if app == nil && g.r.Intn(3) != 0 {
 		sk = &signerKind{kind: "none"}
 	}
+	if f := g.forced; f != nil {
+		nm, cfg, app, sk, wf = f.nm, f.icfg, f.payload, f.sk, true
+	}
 	var rec *recSigner
 	var signer ndn.Signer
 	if sk.signer != nil {
@@ -1603,6 +1724,9 @@ func TestTrace(t *testing.T) {
 		if i%30 == 17 {
 			tr.line("# case %d reuse", i)
 			tr.reuseCase(g, i/30)
+		}
+		if i%30 == 5 {
+			tr.boundaryCases(g, i/30)
 		}
 		if i%20 == 9 {
 			tr.line("# case %d decode sequence", i)
